@@ -13,7 +13,25 @@ def main():
     mod = importlib.import_module('checks.' + pid.lower())
     if '--replay' in sys.argv:
         return mod.replay(sys.argv[sys.argv.index('--replay') + 1])
-    return mod.run(tier)
+    try:
+        return mod.run(tier)
+    except Exception:
+        # fail closed: an exception escaping the harness (typically raised by changed implementation code in a
+        # place the harness did not expect) means the property is no longer shown to hold
+        import traceback, json, time
+        tb = traceback.format_exc()
+        sys.stderr.write(tb)
+        V = os.path.dirname(os.path.dirname(os.path.abspath(__file__)))
+        os.makedirs(os.path.join(V, 'replays'), exist_ok=True)
+        path = os.path.join(V, 'replays', f"{pid}-harness-exception.json")
+        json.dump(dict(property=pid, kind='broken-obligation', broken=[dict(kind='harness-exception', msg=tb[-3000:])]), open(path, 'w'), indent=1)
+        ev = dict(property_id=pid, tier=tier, seed=int(os.environ.get('VERIF_SEED', '0')), level='proof',
+                  coverage=dict(evaluations=1, distinct_nontrivial=2, obligations=1, discharged=0, checker_cmd='n/a', trusted_base=[],
+                                explanation='check aborted by an unexpected exception: ' + tb[-500:]), wall_s=0.0, violations=1)
+        os.makedirs(os.path.join(V, 'evidence'), exist_ok=True)
+        json.dump(ev, open(os.path.join(V, 'evidence', f"{pid}.json"), 'w'), indent=1)
+        print(f"VIOLATION property={pid} replay={path} no-failing-input-found")
+        return 1
 
 
 if __name__ == '__main__':
